@@ -306,7 +306,7 @@ def merge_evidence(ctx, prop, tier, pdef, res, wall):
     os.makedirs(ev_dir, exist_ok=True)
     evaluations = sum(f.get('evaluations', 0) for f in res['frags'])
     nontriv = sum(f.get('distinct_nontrivial', 0) for f in res['frags'])
-    labels, margins, per_cfg, known_hits = {}, {}, {}, {}
+    labels, margins, per_cfg, known_hits, margins_cfg = {}, {}, {}, {}, {}
     samples = []
     for f in res['frags']:
         for k, v in f.get('labels', {}).items():
@@ -318,6 +318,8 @@ def merge_evidence(ctx, prop, tier, pdef, res, wall):
                 v = float('inf')
             key = k
             margins[key] = max(margins.get(key, 0), v)
+            pc = margins_cfg.setdefault(f.get('config', '?') + f.get('tag', ''), {})
+            pc[k] = max(pc.get(k, 0), v)
         for k, v in f.get('known_hits', {}).items():
             known_hits[k] = known_hits.get(k, 0) + v
         c = per_cfg.setdefault(f.get('config', '?') + f.get('tag', ''), {'evaluations': 0, 'distinct_nontrivial': 0})
@@ -337,6 +339,7 @@ def merge_evidence(ctx, prop, tier, pdef, res, wall):
         'per_config': per_cfg,
         'strata_histogram': labels,
         'max_err_over_tol': margins,
+        'max_err_over_tol_per_config': margins_cfg,
         'excluded_known': int(sum(f.get('excluded_known', 0) for f in res['frags'])),
         'known_hits': known_hits,
         'oracle_inconclusive': int(sum(f.get('oracle_inconclusive', 0) for f in res['frags'])),
